@@ -624,6 +624,12 @@ def permute_game(g, perm, tperm_rng=None, rename=None):
             tperm_rng.shuffle(row)
         xtl.append(row)
     finals = [perm[f] for f in g["final_states"]]
+    if tperm_rng is not None and len(finals) > 1:
+        # the order in which the final states are listed is part of "how the game is written down" too
+        if tperm_rng.random() < 0.5:
+            finals = sorted(finals)
+        else:
+            tperm_rng.shuffle(finals)
     return finish(rewards, players, xtl, finals, dict(g.get("_meta", {}), permuted=True))
 
 
@@ -820,3 +826,73 @@ def tiny_dead_decimal_game(rng):
            [("x", lose)], [(Fr(1), lose)], [(Fr(1), win)]]
     players = [front, PR, PR, PR, PR, P2, PR, PR]
     return finish([0, 1, 2, 0, 3, 5, 0, 0], players, xtl, [win], {"family": "tiny_dead_decimal"})
+
+
+def zero_prob_dead_game(rng):
+    """a probabilistic row with a transition of probability exactly 0.0 into a dead state, next to live
+    successors whose decimal probabilities do not sum to 1.0 in floating point (0.01 + 0.29 + 0.7): the dead
+    transition has to go and the survivors are divided by their own total"""
+    base = rng.choice([[0.01, 0.29, 0.7], [0.7, 0.29, 0.01], [0.1, 0.2, 0.7], [0.3, 0.6, 0.1], [0.58, 0.41, 0.01]])
+    pos = rng.randint(0, 3)
+    front = rng.choice([P1, P2, PR])
+    a, b, c, dead, lose, win = 2, 3, 4, 5, 6, 7
+    row = [(Fr(base[0]), a), (Fr(base[1]), b), (Fr(base[2]), c)]
+    row.insert(pos, (Fr(0), dead))
+    if rng.random() < 0.4:
+        row.insert(rng.randint(0, 4), (Fr(0), lose))
+    xtl = [[(Fr(1), 1)] if front == PR else [("go", 1)], row,
+           [(Fr(1, 2), win), (Fr(1, 2), lose)], [(Fr(1, 4), win), (Fr(3, 4), lose)], [(Fr(1), win)],
+           [("x", lose)], [(Fr(1), lose)], [(Fr(1), win)]]
+    players = [front, PR, PR, PR, PR, P2, PR, PR]
+    return finish([0, 1, 2, 0, 3, 5, 0, 0], players, xtl, [win], {"family": "zero_prob_dead"})
+
+
+def subnormal_reach_game(rng):
+    """a live branch whose reach probability is a SUBNORMAL double (1e-155 * 1e-155 = 1e-310 > 0) next to a dead
+    branch: positive is positive, the live branch stays.  An unrelated state keeps the first sweep's change
+    large so that the tiny value is propagated to the front."""
+    kind = rng.choice([P1, PR])
+    e = rng.choice([Fr(10) ** -155, Fr(10) ** -160, Fr(2) ** -520])
+    # 0: kind -> {3 (tiny live), 2 (dead)} ; 3 = [(e, 1), (1-e, lose)] ; 1 = [(e, win), (1-e, lose)] ; 4 unrelated coin
+    # (the deeper state has the smaller index: its value is there when the shallower one is swept)
+    lose, win = 5, 6
+    first = [("a", 3), ("b", 2)] if kind == P1 else [(Fr(1, 2), 3), (Fr(1, 2), 2)]
+    if rng.random() < 0.5:
+        first.reverse()
+    xtl = [first, [(e, win), (1 - e, lose)], [(Fr(1), lose)] if rng.random() < 0.5 else [(Fr(1, 2), lose), (Fr(1, 2), 2)],
+           [(e, 1), (1 - e, lose)], [(Fr(1, 2), win), (Fr(1, 2), lose)], [(Fr(1), lose)], [(Fr(1), win)]]
+    return finish([0, 1, 7, 2, 0, 0, 0], [kind, PR, PR, PR, PR, PR, PR], xtl, [win], {"family": "subnormal_reach"})
+
+
+def duplicate_label_game(rng):
+    """a player state in which ONE action label sits on two transitions with different values (a legal
+    description: labels need not be unique), next to other actions; both transitions belong to that action"""
+    kind = rng.choice([P1, P2])
+    qs = [Fr(1, 2), Fr(1, 4), Fr(3, 4), Fr(1, 2)]
+    rng.shuffle(qs)
+    labels = rng.choice([["left", "right", "left"], ["a", "a", "b"], ["x", "y", "y"], ["left", "left", "right", "right"]])
+    k = len(labels)
+    lose, win = 1 + k, 2 + k
+    xtl = [[(lab, 1 + j) for j, lab in enumerate(labels)]]
+    rewards = [0]
+    for j in range(k):
+        xtl.append([(qs[j % 4], win), (1 - qs[j % 4], lose)])
+        rewards.append(rng.choice([0, 1, 3, 5, 9]))
+    xtl += [[(Fr(1), lose)], [(Fr(1), win)]]
+    return finish(rewards + [0, 0], [kind] + [PR] * (k + 2), xtl, [win], {"family": "duplicate_label"})
+
+
+def mixed_int_float_game(rng):
+    """Player 1 / Player 2 choosing between an exact integer value 2^53 + 1 (all-integer branch) and the float
+    2^53 (a branch with a float probability 1.0): they differ by 1 and must not be reported as tied"""
+    kind = rng.choice([P1, P2])
+    big = 2 ** 53
+    win = 3
+    order = [1, 2]
+    rng.shuffle(order)
+    g = finish([0, big + 1, big, 0], [kind, PR, PR, PR],
+               [[(ACTIONS[j], s) for j, s in enumerate(order)], [(Fr(1), win)], [(Fr(1), win)], [(Fr(1), win)]], [win],
+               {"family": "mixed_int_float"})
+    g["transition_list"][2] = [(1.0, win)]          # float probability: this branch is computed in floating point
+    g["rewards"][2] = float(big)
+    return g
